@@ -145,7 +145,16 @@ Definition hstep (h : hstate) (x : hop) : hstate * (stepobs * stepobs * stepobs 
          the model continues from whichever the model's own crash state denotes *)
       let a_after := fst (a_step (h_a h) o) in
       let done := match op_calls (h_m h) o with Some cs => length cs <=? n | None => false end in
-      ({| h_m := m'; h_a := if done then a_after else h_a h; h_gh := h_gh h; h_relabel := h_relabel h; h_reedge := h_reedge h;
+      (* a call whose writes all happened before the crash has re-added what it re-adds: the regions of the known
+         findings advance exactly as for the completed call *)
+      let ok := snd (step (h_m h) o) in
+      let gh0 := match h_gh h with Some g => g | None => gh_empty end in
+      let '(gh1, rv, re) := scan_elems gh0 (if done && ok then elems_of o else []) (h_relabel h) (h_reedge h) in
+      let gh2 := match o with
+                 | ODeleteGraph g => if done && ok then {| gh_v := filter (fun y => negb (N.eqb g (fst (fst y)))) (gh_v gh1);
+                                                          gh_e := filter (fun y => negb (N.eqb g (fst (fst y)))) (gh_e gh1) |} else gh1
+                 | _ => gh1 end in
+      ({| h_m := m'; h_a := if done then a_after else h_a h; h_gh := if done then Some gh2 else h_gh h; h_relabel := rv; h_reedge := re;
           h_deleted := h_deleted h || (done && is_delete o) |},
        ({| so_ok := true; so_ts := []; so_q := map snd qs |},
         {| so_ok := true; so_ts := []; so_q := map snd (observe_spec (h_a h)) |},
@@ -198,13 +207,19 @@ Definition step_mismatch (h : hstate) (mo : stepobs) (ks : list qkind) (ob : ste
   negb (obs_flags_eqb mo ob && (length (so_q mo) =? length (so_q ob)) &&
         forallb (fun t => let '(k, m, o) := t in model_skip h k || q_agree k m o) (zip3 ks (so_q mo) (so_q ob))).
 
+(* the success flag of DelEdge in the region of known finding 2: a second, stale record of the edge id may still be
+   in the store when the abstract graph has lost the edge (e.g. through the cascade of a vertex deletion) *)
+Definition flags_masked (h : hstate) (x : hop) : bool :=
+  match x with HOp (ODelEdge _ _) => h_reedge h | _ => false end.
+
 (* spec: flags must agree (except after restart / crash where only observations count) *)
 Definition step_specviol (h : hstate) (x : hop) (sp : stepobs) (ks : list qkind) (ob : stepobs) : bool :=
-  negb ((match x with HOp _ => obs_flags_eqb sp ob | _ => true end) && (length (so_q sp) =? length (so_q ob)) &&
+  negb ((match x with HOp _ => flags_masked h x || obs_flags_eqb sp ob | _ => true end) && (length (so_q sp) =? length (so_q ob)) &&
         forallb (fun t => let '(k, s, o) := t in match masked h k with Some _ => true | None => q_agree k s o end)
                 (zip3 ks (so_q sp) (so_q ob))).
 
-Definition step_known (h : hstate) (sp : stepobs) (ks : list qkind) (ob : stepobs) : list nat :=
+Definition step_known (h : hstate) (x : hop) (sp : stepobs) (ks : list qkind) (ob : stepobs) : list nat :=
+  (if flags_masked h x && negb (obs_flags_eqb sp ob) then [2] else []) ++
   flat_map (fun t => let '(k, s, o) := t in
                      match masked h k with Some c => if q_agree k s o then [] else [c] | None => [] end)
            (zip3 ks (so_q sp) (so_q ob)).
@@ -223,9 +238,12 @@ Fixpoint walk (rs : list (hstate * (stepobs * stepobs * stepobs * list qkind))) 
           let bad := step_specviol h x sp ks ob && step_specviol h x sp2 ks ob in
           (mm || step_mismatch h mo ks ob,
            sv || (bad && negb (multi_call o)),
-           (if bad && multi_call o then [4] else []) ++ kf)
+           (if bad && multi_call o then [4] else []) ++
+           (match step_known h x sp ks ob, step_known h x sp2 ks ob with
+            | _ :: _, (_ :: _) as k2 => k2       (* neither candidate state agrees without a mask: the finding shows *)
+            | _, _ => [] end) ++ kf)
       | _ =>
-          (mm || step_mismatch h mo ks ob, sv || step_specviol h x sp ks ob, step_known h sp ks ob ++ kf)
+          (mm || step_mismatch h mo ks ob, sv || step_specviol h x sp ks ob, step_known h x sp ks ob ++ kf)
       end
   | [], [], [] => (false, false, [])
   | _, _, _ => (true, true, [])
